@@ -601,6 +601,19 @@ func verifRuled(kind int) *schema_j5pb.Field {
 	case *schema_j5pb.Field_Enum:
 		if rules {
 			t.Enum.Rules = &schema_j5pb.EnumField_Rules{}
+			// in / not_in by option name, including the zero (UNSPECIFIED) option
+			first := "RED"
+			if kind == fEnumInline {
+				first = "ON"
+			}
+			switch verifDrawChoice("enumMembership", 4) {
+			case 1:
+				t.Enum.Rules.In = []string{first}
+			case 2:
+				t.Enum.Rules.NotIn = []string{"UNSPECIFIED"}
+			case 3:
+				t.Enum.Rules.NotIn = []string{"UNSPECIFIED", first}
+			}
 		}
 		if list {
 			t.Enum.ListRules = &list_j5pb.EnumRules{}
@@ -1240,11 +1253,15 @@ func HarnessConvertService() {
 		verb        int
 		params      int
 		hasResponse bool
+		emptyResp   bool // the response block is declared, without properties
 	}
 	specs := make([]spec, nMethods)
 	methods := []*sourcedef_j5pb.APIMethod{}
 	for i := range specs {
 		specs[i] = spec{verb: ndChoice("verb", len(verbs)), params: ndIntRange("pathParams", 0, 2), hasResponse: ndBool("response")}
+		if specs[i].hasResponse {
+			specs[i].emptyResp = ndBool("emptyResponseBlock")
+		}
 		name := []string{"GetThing", "PutOther"}[i]
 		path := "things"
 		reqProps := []*schema_j5pb.ObjectProperty{}
@@ -1257,6 +1274,9 @@ func HarnessConvertService() {
 		m := &sourcedef_j5pb.APIMethod{Name: name, HttpPath: path, HttpMethod: verbs[specs[i].verb], Request: &sourcedef_j5pb.AnonymousObject{Properties: reqProps}}
 		if specs[i].hasResponse {
 			m.Response = &sourcedef_j5pb.AnonymousObject{Properties: []*schema_j5pb.ObjectProperty{{Name: "result", Schema: verifField(fString)}}}
+			if specs[i].emptyResp {
+				m.Response = &sourcedef_j5pb.AnonymousObject{}
+			}
 		}
 		methods = append(methods, m)
 	}
@@ -1484,6 +1504,9 @@ func HarnessEntity() {
 			kf := &schema_j5pb.KeyField{Format: &schema_j5pb.KeyFormat{Type: &schema_j5pb.KeyFormat_Uuid{Uuid: &schema_j5pb.KeyFormat_UUID{}}}}
 			if ks.primary {
 				kf.Entity = &schema_j5pb.EntityKey{Type: &schema_j5pb.EntityKey_PrimaryKey{PrimaryKey: true}}
+			} else if flag(0, "explicitlyNotPrimary", false) {
+				// "may be explicitly false to self-document"
+				kf.Entity = &schema_j5pb.EntityKey{Type: &schema_j5pb.EntityKey_PrimaryKey{PrimaryKey: false}}
 			}
 			f = &schema_j5pb.Field{Type: &schema_j5pb.Field_Key{Key: kf}}
 		} else {
